@@ -14,4 +14,24 @@ theorem C03_portable_image_is_serialisation (t : Ty) (h : t.WF) (ha : t.align1 =
       (o.res = .ok () → ∀ b, serialize t i = some b → o.bytes.take b.length = b) := by
   obtain ⟨o, ho, hs⟩ := C17_image_is_serialisation t h ha i hw ht s hlen
   exact ⟨o, ho, fun hres b hb => (hs hres b hb).1⟩
+
+/-- **C03, "any aligned buffer that is large enough".** *Large enough* has an exact meaning: the specified content occupies
+`sizeSpec t i` bytes (header, elements, padding — computed from the type and the content alone, `FV/Spec/SizeSpec.lean`), and it is
+representable (`Rep`: lengths within the length type, FlexVec slots below `L::MAX`). Into **every** aligned buffer of at least
+that many bytes the emplacer succeeds, and the result validates, reads back as the specified content and has `size()` equal to
+`sizeSpec t i`, whatever the buffer held before. -/
+theorem C03_large_enough_is_accepted (t : Ty) (h : t.WF) (i : Init) (hw : InitWT t i) (hr : Rep t i) (s : Slice)
+    (hal : s.addr % t.dict.align = 0) (hlen : sizeSpec t i ≤ s.len) :
+    ∃ o, emplaceU t i s = .ok o ∧ o.res = .ok () ∧ t.dict.validate ⟨s.addr, o.bytes⟩ = .ok () ∧
+      (t.dict.walk ⟨s.addr, o.bytes⟩).map Val.strip = specV t i ∧
+      t.dict.size ⟨s.addr, o.bytes⟩ = .ok (sizeSpec t i) := by
+  obtain ⟨hacc, hge⟩ := emplaceU_acc i t h hw
+  have hmin : t.dict.minSize ≤ s.len := by omega
+  obtain ⟨o, ho, hok, hc⟩ := emplaceU_content i t h hw s hal hmin
+  obtain ⟨hiff, hsize⟩ := hacc s hal hmin o ho
+  have hres : o.res = .ok () := hiff.2 ⟨hr, hlen⟩
+  exact ⟨o, ho, hres, validate_ok_iff.2 ⟨hal, by simp only [Slice.len, hok.len]; exact hmin, hok.valid hres⟩, hc hres, hsize hres⟩
+
+/-- non-vacuity: `S1 { a: u32, b: FlatVec<u8,u16> }` with three bytes in `b` occupies 12 bytes (4 + 2 + 3, padded to 4) -/
+example : sizeSpec S1 (.ustruct [[1,0,0,0]] (.vecArr [[7],[8],[9]])) = 12 := by decide
 end FV.Props
